@@ -74,9 +74,14 @@ V('C18', 'neg-needs-quoting-early-returns', Q, 'edb.edgeql.quote.needs_quoting',
 
     string = string.lower()
 
+    # Partial reserved keywords (UNION, EXCEPT, INTERSECT) are only
+    # accepted bare as pointer names; quote them like the reserved ones.
     is_reserved = (
         string not in {'__type__', '__std__'}
-        and string in keywords.by_type[keywords.RESERVED_KEYWORD]
+        and (
+            string in keywords.by_type[keywords.RESERVED_KEYWORD]
+            or string in keywords.by_type[keywords.PARTIAL_RESERVED_KEYWORD]
+        )
     )
 
     return (
@@ -90,7 +95,9 @@ V('C18', 'neg-needs-quoting-early-returns', Q, 'edb.edgeql.quote.needs_quoting',
     lowered = string.lower()
     return (
         lowered not in {'__type__', '__std__'}
-        and lowered in keywords.by_type[keywords.RESERVED_KEYWORD]
+        and (lowered in keywords.by_type[keywords.RESERVED_KEYWORD]
+             or lowered in keywords.by_type[
+                 keywords.PARTIAL_RESERVED_KEYWORD])
     )''', None)
 V('C18', 'neg-pg-needs-quoting-reordered', PC, 'edb.pgsql.common.needs_quoting',
   '''        string
@@ -132,3 +139,7 @@ V('C18', 'translate-table-same-escapes', 'edb/edgeql/quote.py', None,
 """,
   """    result = s.translate(str.maketrans({'\\\\': '\\\\\\\\', '\\'': '\\\\\\'', '\\b': '\\\\b', '\\f': '\\\\f', '\\n': '\\\\n', '\\r': '\\\\r', '\\t': '\\\\t'}))
 """, None)
+# round 5: repair of the partial-reserved keyword class
+V('C18', 'revert-fix-partial-reserved', Q, 'edb.edgeql.quote.needs_quoting',
+  "            or string in keywords.by_type[keywords.PARTIAL_RESERVED_KEYWORD]\n", "",
+  'C18.R3', 'needs_quoting:keyword-class=PARTIAL_RESERVED_KEYWORD')
